@@ -79,8 +79,10 @@ def generate(tier, seed):
         gr, pr = g_rules(dom), p_rules(dom)
         adm = [r for r in pr if r[0] == "admin"][:2] or [["admin"] + pr[0][1:]]
         lines = [["p", "p"] + r for r in pr[:2] + adm] + [["g", "g"] + gr[0], ["g", "g"] + gr[2], ["g", "g"] + gr[3]]
-        for batch in ([gr[0], gr[0], gr[2]], [gr[2], gr[0], gr[2], gr[3]], [gr[3], gr[3]], [gr[0], gr[2], gr[0]]):
-            for pre in ([], ["EB:0", "EB:1"], [A("g", "g", gr[5])]):
+        # (the last two name a stored rule together with one that is NOT stored but whose names are known: the batch is refused,
+        #  nothing may be unlinked - with auto-save off the refusal is the model's own)
+        for batch in ([gr[0], gr[0], gr[2]], [gr[2], gr[0], gr[2], gr[3]], [gr[3], gr[3]], [gr[0], gr[2], gr[0]], [gr[0], gr[1]], [gr[2], gr[5], gr[3]]):
+            for pre in ([], ["EB:0", "EB:1"], [A("g", "g", gr[5])], ["ES:0"]):
                 steps = list(qs)
                 for o in pre + [RM("g", "g", batch)]:
                     steps += [o] + qs + ["BR"] + qs
